@@ -283,7 +283,13 @@ def _get_unaligned(chk, folder, ff, f, iff):
     for si_ in sign_ifs[:1]:
         # locals defined in the branch before the test (e.g. sign_bit = ...)
         pre_env, _ = _forward([st for st in int_branch if isinstance(st, ast.Assign) and st.lineno < si_.lineno])
-        conj = si_.test.values if isinstance(si_.test, ast.BoolOp) and isinstance(si_.test.op, ast.And) else [si_.test]
+        conj = list(si_.test.values) if isinstance(si_.test, ast.BoolOp) and isinstance(si_.test.op, ast.And) else [si_.test]
+        sbody = si_.body
+        while len(sbody) == 1 and isinstance(sbody[0], ast.If) and not sbody[0].orelse:
+            # `if signed: if negative: ...` is `if signed and negative: ...`
+            t_ = sbody[0].test
+            conj += list(t_.values) if isinstance(t_, ast.BoolOp) and isinstance(t_.op, ast.And) else [t_]
+            sbody = sbody[0].body
         signed_ok = any(src(c) == "od_struct.format.islower()" or "SIGNED_TYPES" in src(c) for c in conj)
         chk.check(signed_ok, "R4", f"{site} | only signed types are extended", f.loc(si_), src(si_.test))
         preds = [substitute(c, pre_env) for c in conj if not (src(c) == "od_struct.format.islower()" or "SIGNED_TYPES" in src(c))]
@@ -295,13 +301,13 @@ def _get_unaligned(chk, folder, ff, f, iff):
         else:
             chk.check(verdict, "R4", f"{site} | sign predicate includes the sign bit alone", f.loc(si_),
                       f"`{src(si_.test)}` is false for the value 1 << (length - 1): the most negative value of the field reads back positive")
-        ext = [n for n in si_.body if isinstance(n, (ast.Assign, ast.AugAssign))]
+        ext = [n for n in sbody if isinstance(n, (ast.Assign, ast.AugAssign))]
         def _ext_ok(n):
             if isinstance(n, ast.AugAssign) and src(n.target) == "data":
                 return (isinstance(n.op, ast.BitOr) and ff.is_form(n.value, "~((1 << self.length) - 1)")) or (isinstance(n.op, ast.Sub) and ff.is_form(n.value, "1 << self.length"))
             return isinstance(n, ast.Assign) and (ff.is_form(n.value, "data | ~((1 << self.length) - 1)") or ff.is_form(n.value, "data - (1 << self.length)"))
         ok = len(ext) == 1 and _ext_ok(ext[0])
-        chk.check(ok, "R4", f"{site} | extension fills all higher bits", f.loc(si_), f"{[src(n) for n in si_.body]}")
+        chk.check(ok, "R4", f"{site} | extension fills all higher bits", f.loc(si_), f"{[src(n) for n in sbody]}")
     packs = [n for st in int_branch for n in ast.walk(st) if isinstance(n, ast.Assign) and src(n.value) == "od_struct.pack(data)"]
     chk.check(len(packs) == 1, "R4", f"{site} | integer result encoded with the object's codec", f.loc(iff), "")
     od = [n for n in body if isinstance(n, ast.Assign) and src(n.targets[0]) == "od_struct"]
